@@ -108,9 +108,16 @@ class Recorder:
         self._roles = {}
         self.sync_closures = set()
         self.save_closures = set()
+        self._clears = {}        # sync callable -> does it (transitively) clear the tally
         for c in b.live_calls():
             r = classify_fn_call(b, c)
             if r is None:
+                # a plain call of a crate-local function: a synchronisation / snapshot step written as a nested fn
+                cb = prog.bodies.get((b.crate, c.callee, -1)) if not c.is_fn_trait_call else None
+                if cb is not None and cb.kind in ("Fn", "AssocFn") and c.callee not in (START, END):
+                    role = self._classify_local(cb, plain=True)
+                    if role in ("sync_threads", "save_alloc_info"):
+                        self._roles[c.bb] = role
                 continue
             role, res = r
             if role == "local":
@@ -121,7 +128,7 @@ class Recorder:
         for p in self.paths:
             p.label = self._label(p)
 
-    def _classify_local(self, cb):
+    def _classify_local(self, cb, plain=False):
         """sync closure: reaches Barrier::wait; save closure: reads ThreadAllocInfo::try_current and
         writes the captured tally."""
         if cb is None:
@@ -130,7 +137,10 @@ class Recorder:
         names = set(ext)
         if "std::sync::Barrier::wait" in names:
             self.sync_closures.add(cb.path)
+            self._clears[cb.path] = any(x.path.endswith("ThreadAllocInfo::clear") for x in bodies) or any(n.endswith("ThreadAllocInfo::clear") for n in names)
             return "sync_threads"
+        if plain:
+            return "local:" + cb.path       # library functions called by name keep their own name (ThreadAllocInfo::...)
         if any(n.endswith("ThreadAllocInfo::try_current") for n in [x.path for x in bodies]) or \
                 any(n.endswith("ThreadAllocInfo::try_current") for n in names):
             self.save_closures.add(cb.path)
@@ -143,14 +153,30 @@ class Recorder:
     def sync_arg(self, c):
         """Constant bool passed to the sync closure at call c (True = start), or None."""
         b = self.body
-        if len(c.args) < 2:
-            return None
-        srcs = b.prov.op_src(c.args[1])
-        vals = {s.a for s in srcs if s.kind == "const"}
-        if vals == {"const true"} or vals == {"true"}:
-            return True
-        if vals == {"const false"} or vals == {"false"}:
-            return False
+        flag = c.args[1] if c.is_fn_trait_call and len(c.args) >= 2 and "bool" in (c.gargs[1] if len(c.gargs) > 1 else "") else None
+        if flag is None and not c.is_fn_trait_call:
+            bools = [a for a in c.args if (a.get("c") or a.get("p") or {}).get("ty") == "bool"]
+            flag = bools[0] if len(bools) == 1 else None
+        if flag is not None:
+            srcs = b.prov.op_src(flag)
+            vals = {s.a for s in srcs if s.kind == "const"}
+            if vals == {"const true"} or vals == {"true"}:
+                return True
+            if vals == {"const false"} or vals == {"false"}:
+                return False
+            if vals:
+                return None
+        # no flag at all: start and end synchronisation are separate callables, told apart by what they do - the start
+        # step is the one that clears the tally
+        tgt = None
+        if c.is_fn_trait_call:
+            r = classify_fn_call(b, c)
+            tgt = r[1] if r and r[0] == "local" else None
+        else:
+            tgt = c.callee
+        cb = self.prog.bodies.get((b.crate, tgt, -1)) if tgt else None
+        if cb is not None and tgt in self._clears and not any("bool" == (cb.local_ty(l) or "") for l in range(1, cb.arg_count + 1)):
+            return self._clears[tgt]
         return None
 
     def _label(self, p):
@@ -314,3 +340,44 @@ def variant_predicates(ctx, rule, prog, crate, enum_suffix, floor):
         ctx.check(not odd and yes == [want], rule, [last, "true-exactly-for-its-variant"],
                   "`%s` answers true for %s%s, expected exactly [%s]" % (b.path, yes, " and a non-constant for %s" % odd if odd else "", want), b.where(0))
     ctx.anchor(rule, "is_<variant> predicates of %s" % enum_suffix, n, floor)
+
+
+def trace_sources(prog, body, op, path=(), depth=4, _seen=None):
+    """Provenance of an operand across closure boundaries: the sources of `op` in `body`, with every captured variable
+    replaced by the sources of what the building function stored into the closure, and every closure parameter by the
+    sources of the matching argument at each call of that closure (by the building function or a sibling closure).
+    Returns a set of (body, Src)."""
+    _seen = _seen if _seen is not None else set()
+    out = set()
+    for s in body.prov.op_src(op, path=path):
+        out |= _expand_src(prog, body, s, depth, _seen)
+    return out
+
+
+def _expand_src(prog, body, s, depth, _seen):
+    key = (body.path, s.key())
+    if depth <= 0 or key in _seen:
+        return {(body, s)}
+    _seen = _seen | {key}
+    if s.kind == "upvar":
+        for cn in body.captures or []:
+            if cn.lstrip("*") == str(s.a).lstrip("*"):
+                cp = prog.capture_operand(body, cn)
+                if cp:
+                    return {(body, s)} | trace_sources(prog, cp[0], cp[1], (), depth - 1, _seen)
+        return {(body, s)}
+    if s.kind == "param" and body.kind == "Closure":
+        idx = None
+        for l, nm in body.names.items():
+            if nm == s.a and 2 <= l <= body.arg_count:
+                idx = l - 2
+        par = prog.parent_body(body)
+        if idx is None or par is None:
+            return {(body, s)}
+        out = {(body, s)}
+        for y in [par] + [k for k in prog.children(par) if k is not body]:
+            for c in y.live_calls():
+                if c.is_fn_trait_call and c.name == body.path and len(c.args) == 2:
+                    out |= trace_sources(prog, y, c.args[1], (idx,), depth - 1, _seen)
+        return out
+    return {(body, s)}
